@@ -306,3 +306,339 @@ def rule_ift(rep, repo):
             rep.violation("R7.inverse-function-theorem", f"rtransform.BaseTransform.{name}", "formula",
                           f"returns {sp.factor(got)} (deriv_k = derivatives of the forward map at inverse(r)); the "
                           f"inverse function theorem gives {want}", f.loc())
+
+
+# ================================================================================== C17: Coulomb potentials
+def coulomb_formula(repo, fname, normalized, alg):
+    """(main, small, function) of a Gaussian-potential routine: `main` is the formula returned for radii
+    at or above the small-r threshold (the `where=` region of the masked ufunc / the else-arm of
+    np.where(r < threshold, ...)), `small` what is returned below it (masked constant stores / the
+    other arm).  `normalized` folds the `if normalized:` exit.  Module-level private helpers are
+    interpreted with the (main, small) pairs of their arguments."""
+    import copy
+    import sympy as sp
+    from gridlint import e8
+    f = repo.module_func("coulomb", fname)
+    F = e8.Formula(repo, None, alg)
+    params = f.params
+    if len(params) < 2:
+        raise AnalysisError(f"anchor vanished: coulomb.{fname}(r, alpha, ...)")
+    helpers = {g.name: g for g in repo.funcs.values()
+               if g.module == "coulomb" and g.cls is None and not g.is_lambda and isinstance(g.node, ast.FunctionDef)}
+    rname = params[0]
+    counter = [0]
+
+    class Frame:
+        def __init__(self, env, flags, rvar):
+            self.env = env          # name -> (main, small)
+            self.flags = flags
+            self.rvar = rvar        # names that hold the radius (for masks)
+            self.masks = {}         # boolean locals: name -> True (r < threshold) / False (r >= threshold)
+
+        def small_mask(self, e):
+            """True if the boolean expression means r < threshold, False if r >= threshold, else None."""
+            if isinstance(e, ast.Name) and e.id in self.masks:
+                return self.masks[e.id]
+            if isinstance(e, ast.UnaryOp) and isinstance(e.op, (ast.Invert, ast.Not)):
+                m_ = self.small_mask(e.operand)
+                return None if m_ is None else not m_
+            if isinstance(e, ast.Call) and norm(e.func) in ("np.logical_not", "np.invert") and len(e.args) == 1:
+                m_ = self.small_mask(e.args[0])
+                return None if m_ is None else not m_
+            t = norm(e)
+            for rv in self.rvar:
+                if t.startswith(f"{rv} < ") or t.startswith(f"{rv} <= "):
+                    return True
+                if t.startswith(f"{rv} >= ") or t.startswith(f"{rv} > "):
+                    return False
+            return None
+
+        def ev2(self, e):
+            """Dual value of an expression: special calls are evaluated structurally, the rest through
+            the formula translator, once per region."""
+            e = copy.deepcopy(e)
+
+            class Lift(ast.NodeTransformer):
+                def visit_Subscript(inner, n):   # noqa: N805
+                    # x[mask]: the entries of x in that region -- the region is tracked by the pair itself
+                    if self.small_mask(n.slice) is not None:
+                        return inner.visit(n.value)
+                    return inner.generic_visit(n)
+
+                def visit_Call(inner, n):   # noqa: N805
+                    fn = norm(n.func)
+                    special = None
+                    if fn in ("np.empty_like", "np.zeros_like", "np.empty", "np.zeros"):
+                        special = (sp.Integer(0), sp.Integer(0))
+                    elif fn == "np.where" and len(n.args) == 3:
+                        m = self.small_mask(n.args[0])
+                        if m is None:
+                            raise e8.Undecided(f"np.where on `{norm(n.args[0])[:40]}`")
+                        a_, b_ = self.ev2(n.args[1]), self.ev2(n.args[2])
+                        special = (b_[0], a_[1]) if m else (a_[0], b_[1])
+                    elif isinstance(n.func, ast.Name) and n.func.id in helpers and n.func.id != fname:
+                        special = call_helper(helpers[n.func.id], [self.ev2(a_) for a_ in n.args],
+                                              {k.arg: self.ev2(k.value) for k in n.keywords}, self)
+                    if special is None:
+                        return inner.generic_visit(n)
+                    counter[0] += 1
+                    nm = f"__t{counter[0]}"
+                    self.env[nm] = special
+                    return ast.copy_location(ast.Name(id=nm, ctx=ast.Load()), n)
+            e = ast.fix_missing_locations(Lift().visit(e))
+            em = {k: v[0] for k, v in self.env.items()}
+            es = {k: v[1] for k, v in self.env.items() if v[1] is not None}
+            main = F.ev(e, em, 0)
+            try:
+                small = F.ev(e, es, 0)
+            except e8.Undecided:
+                small = None
+            return main, small
+
+        def block(self, stmts):
+            for s in stmts:
+                if isinstance(s, ast.Expr) and isinstance(s.value, ast.Constant):
+                    continue
+                if isinstance(s, ast.If):
+                    t = s.test
+                    if isinstance(t, ast.Name) and t.id in self.flags:
+                        r_ = self.block(s.body if self.flags[t.id] else s.orelse)
+                        if r_ is not None:
+                            return r_
+                        continue
+                    if isinstance(t, ast.UnaryOp) and isinstance(t.op, ast.Not) and isinstance(t.operand, ast.Name) \
+                            and t.operand.id in self.flags:
+                        r_ = self.block(s.orelse if self.flags[t.operand.id] else s.body)
+                        if r_ is not None:
+                            return r_
+                        continue
+                    if s.body and isinstance(s.body[-1], ast.Raise) and not s.orelse:
+                        continue   # validation
+                    raise e8.Undecided(f"branch on `{norm(t)[:50]}`")
+                if isinstance(s, ast.Assign) and len(s.targets) == 1 and isinstance(s.targets[0], ast.Name) and \
+                        self.small_mask(s.value) is not None:
+                    self.masks[s.targets[0].id] = self.small_mask(s.value)
+                    continue
+                if isinstance(s, ast.Assign) and len(s.targets) == 1 and isinstance(s.targets[0], ast.Name):
+                    self.env[s.targets[0].id] = self.ev2(s.value)
+                    if isinstance(s.value, ast.Call) and norm(s.value.func) in ("np.atleast_1d", "np.asarray", "np.array") \
+                            and s.value.args and any(isinstance(x, ast.Name) and x.id in self.rvar for x in ast.walk(s.value)):
+                        self.rvar.add(s.targets[0].id)
+                    continue
+                if isinstance(s, ast.Assign) and len(s.targets) == 1 and isinstance(s.targets[0], ast.Subscript) and \
+                        isinstance(s.targets[0].value, ast.Name):
+                    nm = s.targets[0].value.id
+                    m = self.small_mask(s.targets[0].slice)
+                    v = self.ev2(s.value)
+                    old = self.env.get(nm, (None, None))
+                    if m is True:
+                        self.env[nm] = (old[0], v[1])
+                    elif m is False:
+                        self.env[nm] = (v[0], old[1])
+                    else:
+                        raise e8.Undecided(f"store `{norm(s)[:60]}`")
+                    continue
+                if isinstance(s, ast.AugAssign) and isinstance(s.target, ast.Name):
+                    fake = ast.BinOp(left=ast.Name(id=s.target.id, ctx=ast.Load()), op=s.op, right=s.value)
+                    self.env[s.target.id] = self.ev2(fake)
+                    continue
+                if isinstance(s, ast.Expr) and isinstance(s.value, ast.Call) and norm(s.value.func) in (
+                        "np.divide", "np.multiply", "np.add", "np.subtract", "np.true_divide") and len(s.value.args) == 2:
+                    kws = {k.arg: k.value for k in s.value.keywords}
+                    if "out" in kws and isinstance(kws["out"], ast.Name):
+                        op = {"np.divide": ast.Div(), "np.true_divide": ast.Div(), "np.multiply": ast.Mult(),
+                              "np.add": ast.Add(), "np.subtract": ast.Sub()}[norm(s.value.func)]
+                        v = self.ev2(ast.BinOp(left=s.value.args[0], op=op, right=s.value.args[1]))
+                        old = self.env.get(kws["out"].id, (None, None))
+                        m = self.small_mask(kws["where"]) if "where" in kws else None
+                        if "where" not in kws:
+                            self.env[kws["out"].id] = v
+                        elif m is False:       # computed where r >= threshold only
+                            self.env[kws["out"].id] = (v[0], old[1])
+                        elif m is True:
+                            self.env[kws["out"].id] = (old[0], v[1])
+                        else:
+                            raise e8.Undecided(f"mask `{norm(kws['where'])[:40]}`")
+                        continue
+                    raise e8.Undecided(f"ufunc call `{norm(s)[:60]}`")
+                if isinstance(s, ast.Return) and s.value is not None:
+                    return self.ev2(s.value)
+                raise e8.Undecided(f"statement `{norm(s)[:60]}`")
+            return None
+
+    def call_helper(h, args, kw, caller):
+        hp = h.params
+        env = {}
+        rvar = set()
+        for p_, a_ in zip(hp, args):
+            env[p_] = a_
+            if a_[0] == alg.x:
+                rvar.add(p_)
+        for k_, v_ in kw.items():
+            env[k_] = v_
+            if v_[0] == alg.x:
+                rvar.add(k_)
+        fr = Frame(env, {}, rvar)
+        r_ = fr.block(strip_docstring(h.node.body))
+        if r_ is None:
+            raise e8.Undecided(f"helper {h.name} returns nothing")
+        return r_
+    env0 = {params[0]: (alg.x, alg.x), params[1]: (alg.param("alpha"), alg.param("alpha"))}
+    fr = Frame(env0, {p_: normalized for p_ in params[2:3]}, {rname})
+    r_ = fr.block(strip_docstring(f.node.body))
+    if r_ is None or r_[1] is None:
+        raise e8.Undecided(f"coulomb.{fname}: no returned formula for both regions")
+    return r_[0], r_[1], f
+
+
+def rule_coulomb(rep, repo):
+    """The s- and p-type routines return the electrostatic potential of the density they document:
+      P1  radial Poisson equation  (r V)'' = -4 pi r rho   (normal forms with an erf generator)
+      P2  the constant returned below the small-r threshold is the limit of the formula at r -> 0
+      P3  r V -> total charge of the density as r -> infinity (no additive constant, no 1/r defect)
+    for the normalised and the unnormalised variant of both functions.  The documented densities are
+    the specification (docstrings of coulomb.py): s: (alpha/pi)^(3/2) e^(-alpha r^2), p:
+    (2/3) alpha^(5/2) pi^(-3/2) r^2 e^(-alpha r^2); unnormalised: e^(-alpha r^2), r^2 e^(-alpha r^2)."""
+    import sympy as sp
+    from gridlint import e8
+    n_ok = 0
+    for fname, kind in (("coulomb_gaussian_s", "s"), ("coulomb_gaussian_p", "p")):
+        for normalized in (True, False):
+            alg = e8.Algebra("r")
+            r_, a_, pi_ = alg.x, alg.param("alpha"), alg.param("pi")
+            alg.ref = {r_: sp.Rational(3, 4), a_: sp.Rational(5, 2), pi_: sp.pi}
+            pts = [{r_: sp.Rational(3, 4), a_: sp.Rational(5, 2), pi_: sp.pi},
+                   {r_: sp.Rational(1, 5), a_: sp.Rational(7, 3), pi_: sp.pi},
+                   {r_: sp.Rational(9, 4), a_: sp.Rational(1, 3), pi_: sp.pi}]
+            label = "normalized" if normalized else "unnormalized"
+            try:
+                main, small, f = coulomb_formula(repo, fname, normalized, alg)
+                V = alg.nf(main)
+                Vs = alg.nf(small)
+            except e8.Undecided as e:
+                raise AnalysisError(f"formula of coulomb.{fname} is outside the closed-form fragment: {e}") from e
+            gauss = sp.exp(-a_ * r_ ** 2)
+            if kind == "s":
+                rho = (a_ / pi_) ** sp.Rational(3, 2) * gauss if normalized else gauss
+                charge = sp.Integer(1) if normalized else (pi_ / a_) ** sp.Rational(3, 2)
+            else:
+                rho = sp.Rational(2, 3) * a_ ** sp.Rational(5, 2) / pi_ ** sp.Rational(3, 2) * r_ ** 2 * gauss \
+                    if normalized else r_ ** 2 * gauss
+                charge = sp.Integer(1) if normalized else sp.Rational(3, 2) * pi_ ** sp.Rational(3, 2) / a_ ** sp.Rational(5, 2)
+            rho_n, charge_n = alg.nf(rho), alg.nf(charge)
+            cons = f"coulomb.{fname}"
+            # P1
+            lhs = alg.D(alg.D(r_ * V))
+            rhs = -4 * pi_ * r_ * rho_n
+            if alg.zero(lhs - rhs):
+                rep.ok("P1.poisson-identity", f"{fname}[{label}]", f.loc(), "(r V)'' == -4 pi r rho on the normal form")
+                n_ok += 1
+            else:
+                w = e8.witness(alg, lhs, rhs, pts)
+                if w is None:
+                    raise AnalysisError(f"cannot decide the Poisson identity for coulomb.{fname} ({label})")
+                pt, va, vb = w
+                implied = sp.factor(sp.cancel(-lhs / (4 * pi_ * r_)))
+                rep.violation("P1.poisson-identity", cons, label,
+                              f"the {label} {kind}-type potential is not the potential of the density it documents: at "
+                              f"{e8.show_point({k: v for k, v in pt.items() if k != pi_})} (r V)'' = {sp.N(va, 10)} but "
+                              f"-4 pi r rho = {sp.N(vb, 10)}; the formula returned solves the Poisson equation for the "
+                              f"density {alg.show(implied, 140)} instead", f.loc())
+            # P2: limit at r -> 0 by l'Hopital on the normal form
+            lim = _limit_zero(alg, V)
+            if lim is None:
+                raise AnalysisError(f"cannot take the r -> 0 limit of coulomb.{fname} ({label})")
+            Vs0 = Vs
+            if alg.x in sp.sympify(Vs).free_symbols:
+                # an expansion in r is used below the threshold: its value at r = 0 is compared; how far it
+                # may be used (threshold x exponent) is a numerical question that is not decided here
+                Vs0 = _limit_zero(alg, Vs)
+                rep.note(f"coulomb.{fname} ({label}) uses an r-dependent formula below the small-r threshold "
+                         f"({alg.show(Vs, 80)}); only its value at r = 0 is compared with the limit")
+            if Vs0 is not None and alg.zero(lim - Vs0):
+                rep.ok("P2.small-r-limit", f"{fname}[{label}]", f.loc(), f"value below the threshold = limit {alg.show(lim, 60)}")
+                n_ok += 1
+            else:
+                rep.violation("P2.small-r-limit", cons, label,
+                              f"below the small-r threshold the routine returns {alg.show(Vs, 80)} but the formula used "
+                              f"above it tends to {alg.show(lim, 80)} as r -> 0: the potential jumps at the switch", f.loc())
+            # P3: r V -> total charge
+            inf = _limit_infinity(alg, sp.cancel(r_ * V))
+            if inf is None:
+                raise AnalysisError(f"cannot take the r -> infinity limit of r V for coulomb.{fname} ({label})")
+            if isinstance(inf, tuple):
+                rep.violation("P3.total-charge-at-infinity", cons, label,
+                              f"r V behaves like {alg.show(inf[1], 80)} at large r instead of tending to the total charge "
+                              f"{alg.show(charge_n, 60)}: the potential does not decay like charge / r", f.loc())
+            elif alg.zero(inf - charge_n):
+                rep.ok("P3.total-charge-at-infinity", f"{fname}[{label}]", f.loc(), f"r V -> {alg.show(inf, 60)}")
+                n_ok += 1
+            else:
+                rep.violation("P3.total-charge-at-infinity", cons, label,
+                              f"r V tends to {alg.show(inf, 80)} at large r, the documented density carries the charge "
+                              f"{alg.show(charge_n, 80)}", f.loc())
+    rep.floor("Coulomb identities established", n_ok, 8)
+
+
+def _subs_generators(alg, e, at_zero):
+    """Replace the x-dependent generators of a normal form by their limits at r = 0 (at_zero) or at
+    r -> infinity: exp(-c r^2) -> 1 / 0, erf(c r) -> 0 / 1 for positive c."""
+    import sympy as sp
+    sub = {}
+    for g in [s_ for s_ in e.free_symbols if s_ in alg.info]:
+        kind, a, unit = alg.info[g]
+        if alg.x not in sp.sympify(a).free_symbols:
+            continue
+        if kind == "E":
+            a0 = sp.cancel(a.subs(alg.x, 0))
+            if at_zero and a0 == 0:
+                sub[g] = sp.Integer(1)
+            elif not at_zero:
+                sub[g] = sp.Symbol("__INF__")   # exp(+c r^2): only its reciprocal may survive
+            else:
+                return None
+        elif kind == "R":
+            a0 = sp.cancel(a.subs(alg.x, 0))
+            if at_zero and a0 == 0:
+                sub[g] = sp.Integer(0)
+            elif not at_zero:
+                sub[g] = sp.Integer(1)
+            else:
+                return None
+        else:
+            return None
+    return sub
+
+
+def _limit_zero(alg, V, depth=0):
+    import sympy as sp
+    n, d = sp.fraction(sp.cancel(sp.together(V)))
+    sub_n = _subs_generators(alg, n, True)
+    sub_d = _subs_generators(alg, d, True)
+    if sub_n is None or sub_d is None:
+        return None
+    n0 = sp.cancel(n.subs(sub_n).subs(alg.x, 0))
+    d0 = sp.cancel(d.subs(sub_d).subs(alg.x, 0))
+    if d0 != 0:
+        return sp.cancel(n0 / d0)
+    if n0 != 0 or depth > 3:
+        return None
+    return _limit_zero(alg, sp.cancel(alg.D(n)) / sp.cancel(alg.D(d)), depth + 1)   # l'Hopital
+
+
+def _limit_infinity(alg, W):
+    """Limit of W = P/Q as r -> infinity when W is (constant + terms carrying 1/exp(c r^2))."""
+    import sympy as sp
+    n, d = sp.fraction(sp.cancel(sp.together(W)))
+    INF = sp.Symbol("__INF__")
+    sub = _subs_generators(alg, n * d, False)
+    if sub is None:
+        return None
+    w = sp.cancel((n / d).subs(sub))
+    # polynomial factors in r are dominated by the Gaussian: INF -> oo first
+    w = sp.limit(w, INF, sp.oo) if INF in w.free_symbols else w
+    if w.has(sp.oo, sp.zoo, sp.nan):
+        return None
+    if alg.x in w.free_symbols:
+        return ("grows", sp.cancel(w))    # r V keeps depending on r: V does not decay like charge / r
+    return sp.cancel(w)
